@@ -300,6 +300,11 @@ func plans(thorough bool) []worldPlan {
 	for _, log := range seqs([]string{"msg", "qbot"}, 1, commonLen-1) {
 		add(log, depth, func(c *updsim.WorldCfg) { c.Bot = true })
 	}
+	// qts-bearing other_updates next to new_encrypted_messages in one difference: the other update does not directly
+	// follow the local qts (the encrypted message before it is served in another vector of the same answer)
+	for _, log := range seqs([]string{"enc", "qbot"}, 2, commonLen) {
+		add(log, depth, func(c *updsim.WorldCfg) { c.Bot = true })
+	}
 	for _, ch := range seqs([]string{"cmsg", "cdel"}, 1, chanLen) {
 		for _, common := range [][]string{nil, {"msg"}} {
 			for _, sl := range []int{0, 1} {
